@@ -223,4 +223,51 @@ def rollNeg (h w : Nat) (oy ox : Int) (I : Pattern R) : Pattern R :=
     (I.getD ((Int.ofNat i + oy) % Int.ofNat h).toNat []).getD ((Int.ofNat j + ox) % Int.ofNat w).toNat Num.zero))
 
 end
+
+/-! ### the `origin_measured` / `origin_fitted` setters: accepted input forms -/
+
+/-- what can be handed to the setters (after `validate_tensor`): an `(N, 2)` list of (row, col)
+pairs, an `(Rx, Ry, 2)` scan grid of pairs, or a single pair -/
+inductive OriginInput (α : Type) where
+  | flat (l : List (α × α))
+  | grid (g : List (List (α × α)))
+  | pair (p : α × α)
+
+/-- `value.view((-1, 2))`: row-major flattening to pairs -/
+def viewPairs {α : Type} : OriginInput α → List (α × α)
+  | .flat l => l
+  | .grid g => g.flatten                                    -- pattern (i, j) ↦ position i * Ry + j
+  | .pair p => [p]
+
+/-- `.expand((num_dps, 2))`: kept if there is one pair per pattern, a single pair is broadcast to
+every pattern, any other length raises -/
+def expandPairs {α : Type} (numDps : Nat) : List (α × α) → Option (List (α × α))
+  | [p] => if numDps = 1 then some [p] else some (List.replicate numDps p)
+  | l => if l.length = numDps then some l else none
+
+/-- the setters of `origin_measured` / `origin_fitted` -/
+def storeOrigins {α : Type} (numDps : Nat) (v : OriginInput α) : Option (List (α × α)) :=
+  expandPairs numDps (viewPairs v)
+
+/-- a layout dispatch that also accepts a component-first `(2, Rx, Ry)` array and recognises it by
+the TOO WEAK test `ndim == 3 and shape[0] == 2` (kept as a warning: see
+`weak_layout_test_counterexample`): a grid with exactly two rows is re-read as two component
+planes `rows, cols` whose entries are paired position by position. -/
+def storeOriginsWeakTest {α : Type} (numDps : Nat) (v : OriginInput α) : Option (List (α × α)) :=
+  match v with
+  | .grid [r0, r1] =>
+      let comp (r : List (α × α)) : List α := r.flatMap (fun p => [p.1, p.2])   -- the (Ry, 2) block of one "component"
+      expandPairs numDps (List.zip (comp r0) (comp r1))
+  | other => storeOrigins numDps other
+
+section
+variable {R : Type} [Num R]
+
+/-- the pattern moved down by `a` rows and right by `b` columns WITHOUT wrap-around (the frame
+grows): `a` empty rows on top, `b` zeros in front of every row -/
+def padShift (a b : Nat) (I : Pattern R) : Pattern R :=
+  List.replicate a [] ++ I.map (fun row => List.replicate b (Num.zero : R) ++ row)
+
+end
+
 end QuantemModel.Origin
